@@ -19,8 +19,10 @@ static size_t build_archive(vrng* r, const uint8_t* x, size_t n, unsigned maxFra
     int const smallOut = vr_chance(r, 1, 2);      /* output room per call: tiny windows (frame ends need several calls) or everything */
     #define ROOM() do { if (smallOut) { size_t const room_ = vr_chance(r, 1, 2) ? 1 + vr_u(r, 40) : 1 + vr_u(r, 1200); out.size = V_MIN(cap, out.pos + room_); } } while (0)
     size_t const mfs = maxFrameSize ? maxFrameSize : (size_t)1 << 30;
+    int const bigIn = vr_chance(r, 1, 4); if (bigIn) v_stat("archives_fed_in_multi_block_chunks", 1);
     while (pos < n) {
-        size_t chunk = 1 + vr_u64(r, vr_chance(r, 1, 3) ? 300 : 70000); if (chunk > n - pos) chunk = n - pos;
+        size_t chunk = 1 + vr_u64(r, vr_chance(r, 1, 3) ? 300 : 70000); if (bigIn) chunk = vr_chance(r, 1, 2) ? n - pos : 1 + vr_u64(r, n);      /* several blocks offered at once: consumed over many calls when the output is small */
+        if (chunk > n - pos) chunk = n - pos;
         ZSTD_inBuffer in = { x + pos, chunk, 0 };
         while (in.pos < in.size) {
             size_t before = in.pos;
